@@ -194,4 +194,71 @@ theorem getRowsIter_fuel_enough (fuel : Nat) :
           simp only at h ⊢
           exact ih s2 (n :: acc) (by simp only [List.length_cons]; omega) k
 
+/-! ## width of a streamed row -/
+
+/-- every `<c>` token with a parsable reference has its column inside the grid (what `CellNameToCoordinates`
+guarantees, C20) -/
+def ColsInGrid (toks : List Tok) : Prop :=
+  ∀ c b v, Tok.cell (some c) b v ∈ toks → c ≤ (Facts.MaxColumns : Int)
+
+theorem ColsInGrid.tail {t : Tok} {rest : List Tok} (h : ColsInGrid (t :: rest)) : ColsInGrid rest :=
+  fun c b v hm => h c b v (List.mem_cons_of_mem _ hm)
+
+/-- the blank-padding of `rowXMLHandler`: the row length never exceeds the budget `B ≥ MaxColumns + tokens` -/
+theorem columnsScan_width (B : Int) (seek : Int) (toks : List Tok) :
+    ∀ (cur : Int) (heldNil : Bool) (cells : Nat) (cellCol : Int), ColsInGrid toks →
+    (cells : Int) + (toks.length : Int) ≤ B → cellCol + (toks.length : Int) ≤ B →
+    (Facts.MaxColumns : Int) + (toks.length : Int) ≤ B →
+    ((columnsScan cur seek heldNil cells cellCol toks).1 : Int) ≤ B := by
+  induction toks with
+  | nil => intro cur hn cells cc _ h1 _ _; unfold columnsScan; simpa using h1
+  | cons t rest ih =>
+    intro cur hn cells cc hG h1 h2 h3
+    simp only [List.length_cons, Int.natCast_add, Int.cast_ofNat_Int] at h1 h2 h3
+    have hR := hG.tail
+    cases t with
+    | row r =>
+      rw [columnsScan_row]
+      split
+      · dsimp only; omega
+      · split
+        · dsimp only; omega
+        · exact ih _ _ _ _ hR (by omega) (by omega) (by omega)
+    | cell col bad val =>
+      cases col with
+      | none =>
+        unfold columnsScan
+        split
+        · dsimp only; omega
+        · refine ih _ _ _ _ hR ?_ ?_ (by omega)
+          · dsimp only; split <;> omega
+          · dsimp only; omega
+      | some c =>
+        have hc : c ≤ (Facts.MaxColumns : Int) := hG c bad val (List.mem_cons_self ..)
+        unfold columnsScan
+        split
+        · dsimp only; omega
+        · refine ih _ _ _ _ hR ?_ ?_ (by omega)
+          · dsimp only; split <;> omega
+          · dsimp only; omega
+    | endData => unfold columnsScan; dsimp only; omega
+    | other => unfold columnsScan; exact ih _ _ _ _ hR (by omega) (by omega) (by omega)
+
+/-- `Rows.Columns`: a streamed row is at most MaxColumns + remaining tokens wide -/
+theorem rowsColumns_width (s : RowsState) (hG : ColsInGrid s.toks) :
+    (rowsColumns s).1 ≤ Facts.MaxColumns + s.toks.length := by
+  have key : ((rowsColumns s).1 : Int) ≤ (Facts.MaxColumns : Int) + (s.toks.length : Int) := by
+    unfold rowsColumns
+    split
+    · dsimp only; omega
+    · split
+      · rw [columnsScan_row]
+        split
+        · dsimp only; omega
+        · split
+          · dsimp only; omega
+          · exact columnsScan_width _ s.seek s.toks _ true 0 0 hG (by omega) (by omega) (by omega)
+      · exact columnsScan_width _ s.seek s.toks _ true 0 0 hG (by omega) (by omega) (by omega)
+  omega
+
 end XlModel.Decode
